@@ -290,6 +290,38 @@ def coreCommit {σ} (pre : State σ) (r : Res σ) : Option Ack × State σ :=
   | none => (none, r.st)
   | some a => (some a, if a.success then r.st else pre)
 
+/-! ### the stateless stage, restarts, dropped executions -/
+
+/-- The packet's own fields as `MsgRecvPacket.ValidateBasic` → `Packet.ValidateBasic` looks at them (identifiers are
+    well-formed by construction in this model). -/
+structure Wire where
+  seq : Nat
+  dataEmpty : Bool
+  timeoutRev : Nat
+  timeoutHeight : Nat
+  timeoutTimestamp : Nat
+
+/-- `Packet.ValidateBasic`: sequence ≠ 0, some timeout, non-empty data. -/
+def packetValidateBasic (w : Wire) : Bool :=
+  w.seq != 0 && !(w.timeoutRev == 0 && w.timeoutHeight == 0 && w.timeoutTimestamp == 0) && !w.dataEmpty
+
+/-- A transaction carrying MsgRecvPacket: `ValidateBasic ; handler`. `none` = refused statelessly (the handler, hence
+    the middleware, never runs; nothing changes). -/
+def deliverMsg {σ P} (fixed : Bool) (E : Evm σ) (view : P → View) (inner : Inner σ P) (wire : P → Wire) (st : State σ) (pkt : P) :
+    Option (Outcome (Res σ)) :=
+  if packetValidateBasic (wire pkt) then some (onRecv fixed E view inner st pkt) else none
+
+/-- Restart of the aggregate module (ExportGenesis → JSON → Validate → wipe → InitGenesis): params and every pair with all
+    its denominations, its contract and its enabled flag are exported and re-indexed — the identity on the state the
+    property talks about. -/
+def restart {σ} (st : State σ) : State σ := st
+
+/-- Running the callback on a context that is dropped (Simulate / CheckTx / failed multi-message tx / the harness' own
+    copies): the identity. -/
+def dropped {σ P} (fixed : Bool) (E : Evm σ) (view : P → View) (inner : Inner σ P) (st : State σ) (pkt : P) : State σ :=
+  let _ := onRecv fixed E view inner st pkt
+  st
+
 /-- The other callbacks of the middleware: the wrapped application's result, then the keeper's no-op. -/
 def onAcknowledgement {ε} (innerResult : Option ε) : Option ε :=
   match innerResult with
